@@ -32,7 +32,7 @@ let () =
       let hd = String.split_on_char ',' (String.sub line 0 p) in
       let body = String.sub line (p+1) (String.length line - p - 1) in
       (match hd with
-       | kind :: _mode :: rmtu :: rmagic :: rsex :: rmax :: misc :: _ ->
+       | kind :: mode :: rmtu :: rmagic :: rsex :: rmax :: misc :: _ ->
          let mini = (kind = "N") in
          let rmtu_eff = if mini then mclamp_mtu (n_of_string rmtu) else clamp_mtu (n_of_string rmtu) in
          let rc = { rc_magic = n_of_string rmagic; rc_sex = n_of_string rsex; rc_mtu = rmtu_eff;
@@ -59,7 +59,7 @@ let () =
              if mini then mrecv_packet inflate rc (n_of_int from) pkt
              else (let (t', o) = recv_packet rc !tbl (n_of_int from) pkt in tbl := t'; o) in
            Buffer.add_string buf tag; Buffer.add_char buf '[';
-           let vis = List.filter (fun (_, m) -> m <> []) out in
+           let vis = if mode = "B" then out else List.filter (fun (_, m) -> m <> []) out in
            Buffer.add_string buf (String.concat "," (List.map (fun (a, m) -> string_of_int (int_of_n a) ^ ":" ^ hex_of_bytes m) vis));
            Buffer.add_char buf ']';
            if not mini then begin
